@@ -20,7 +20,7 @@ include!("extracted.rs");
 //   every result is canonical (< p); nothing panics; eval and eval_fr agree wherever both are defined.
 // Operands: four symbolic limbs constrained only by `< p`.  All loops are bounded by the operand width
 // (4 limbs, 32 bytes, 3 limb moves), unwinding assertions are on: SUCCESSFUL = complete proof of the clause
-// for the extracted text under the Fr model.  `which` selects one clause per path so that a failing clause
+// for the extracted text under the Fr model.  Obligations are `kani::assert(cond, "<function>/<clause>")`.  `which` selects one clause per path so that a failing clause
 // (or a panic inside the function) never hides a sibling clause.
 #[cfg(kani)]
 mod verif_kani {
@@ -295,6 +295,26 @@ mod verif_kani {
         kani::assert(eq4(&r, &if !eq4(&a, &ZERO) { b } else { c }), "TresOperation_eval_fr/terncond-selects-b-iff-a-nonzero");
     }
 
+    // ---- the Montgomery evaluator's unimplemented arms -------------------------------------------------------------
+    // Operation::Pow and UnoOperation::Id are produced by the deserialiser (proto::DuoOp::Pow -> Operation::Pow,
+    // proto::UnoOp::Id -> UnoOperation::Id in storage.rs) and evaluated by the integer evaluator; eval_fr must
+    // not crash on them.
+    #[kani::proof]
+    #[kani::unwind(34)]
+    fn pow_eval_fr_arm() {
+        let a = any_p();
+        let b = any_p();
+        let r = l(Operation::Pow.eval_fr(fr(a), fr(b)));
+        kani::assert(lt4(&r, &P), "Operation_eval_fr/pow-canonical");
+    }
+    #[kani::proof]
+    #[kani::unwind(34)]
+    fn id_eval_fr_arm() {
+        let a = any_p();
+        let r = l(UnoOperation::Id.eval_fr(fr(a)));
+        kani::assert(eq4(&r, &a), "UnoOperation_eval_fr/id-is-identity");
+    }
+
     // ---- the two evaluators agree wherever both are defined ------------------------------------------------------------
     fn agree(op: Operation, a: &L, b: &L) -> bool {
         let x = fr_to_u256(&op.eval_fr(fr(*a), fr(*b)));
@@ -316,17 +336,27 @@ mod verif_kani {
         if which == 6 { kani::assert(agree(Operation::Land, &a, &b), "evaluators/agree-land"); }
         if which == 7 { kani::assert(agree(Operation::Lor, &a, &b), "evaluators/agree-lor"); }
     }
+    // reaches ruint's add_mod (reduce_mod -> Knuth division): unwind 6 + `--unwindset memcmp.0:34` from units.json
+    #[kani::proof]
+    #[kani::unwind(6)]
+    fn agree_add_sub() {
+        let a = any_p();
+        let b = any_p();
+        if kani::any() {
+            kani::assert(agree(Operation::Add, &a, &b), "evaluators/agree-add");
+        } else {
+            kani::assert(agree(Operation::Sub, &a, &b), "evaluators/agree-sub");
+        }
+    }
     #[kani::proof]
     #[kani::unwind(34)]
-    fn agree_add_sub_band_shr() {
+    fn agree_band_shr() {
         let a = any_p();
         let b = any_p();
         let which: u8 = kani::any();
-        if which == 0 { kani::assert(agree(Operation::Add, &a, &b), "evaluators/agree-add"); }
-        if which == 1 { kani::assert(agree(Operation::Sub, &a, &b), "evaluators/agree-sub"); }
-        if which == 2 { kani::assert(agree(Operation::Band, &a, &b), "evaluators/agree-band"); }
+        if which == 0 { kani::assert(agree(Operation::Band, &a, &b), "evaluators/agree-band"); }
         // eval's Shr is defined (debug_assert) for counts below 256 only
-        if which == 3 && lt256(&b) { kani::assert(agree(Operation::Shr, &a, &b), "evaluators/agree-shr"); }
+        if which == 1 && lt256(&b) { kani::assert(agree(Operation::Shr, &a, &b), "evaluators/agree-shr"); }
     }
     // Bor / Bxor: both are defined whenever a|b (a^b) differs from p
     #[kani::proof]
@@ -370,15 +400,7 @@ mod verif_kani {
             kani::assert(eq4(x.as_limbs(), y.as_limbs()), "evaluators/agree-terncond");
         }
     }
-    // Idiv / Mod with a non-zero divisor: both evaluators run ruint's Knuth division (attempted; see units.json)
-    #[kani::proof]
-    #[kani::unwind(34)]
-    fn agree_idiv_mod_nonzero() {
-        let a = any_p();
-        let b = any_p();
-        kani::assume(!eq4(&b, &ZERO));
-        let which: u8 = kani::any();
-        if which == 0 { kani::assert(agree(Operation::Idiv, &a, &b), "evaluators/agree-idiv-nonzero-divisor"); }
-        if which == 1 { kani::assert(agree(Operation::Mod, &a, &b), "evaluators/agree-mod-nonzero-divisor"); }
-    }
+    // Idiv / Mod with a non-zero divisor: both evaluators call the same ruint `/` and `%` on the same canonical
+    // integers; proving anything about that Knuth division is beyond CBMC here (out of memory / time), so the
+    // agreement and the `u256_to_fr(..)` no-panic of these two arms rest on ruint (trusted: q <= a < p, r < b < p).
 }
